@@ -107,4 +107,23 @@ ClosedFormPos ==      \* 6*total = 6*acc0 + 6*r0*k + 3*a*k(k+1) + j*(k-1)k(k+1)
 ClosedFormRate ==     \* 2*rate_k = 2*r0 + 2*a*k + j*k(k-1)
   Small => 2 * rate = 2 * r0 + 2 * cmd.a * tick + cmd.j * tick * (tick - 1)
 ClosedFormAccel == Small => accel = cmd.a + cmd.j * tick
+
+(* ---------------- C17: the reported peak rate (impl-shaped max_rate_t3) ---------------- *)
+\* rate_k by the closed form (= the stepped rate, ClosedFormRate)
+RateAt(k) == r0 + cmd.a * k + (cmd.j * k * (k - 1)) \div 2
+CeilDiv(n, d) == IF d > 0 THEN 0 - ((0 - n) \div d) ELSE 0 - (n \div (0 - d))      \* ceil(n/d), d # 0
+MaxRateImpl(T) ==
+  LET vs == AbsI(RateAt(1))
+      ve == AbsI(RateAt(T)) IN
+  IF T <= 1 THEN vs
+  ELSE IF cmd.j = 0 THEN MaxI(vs, ve)
+  ELSE LET sg  == IF cmd.j > 0 THEN 1 ELSE -1
+           num == sg * (cmd.j - 2 * cmd.a)            \* t_mid = (j/2 - a)/j = num/den, den > 0
+           den == sg * 2 * cmd.j IN
+       IF 3 * den < 2 * num /\ 2 * num < (2 * T - 3) * den
+       THEN MaxI(MaxI(vs, ve), AbsI(RateAt(CeilDiv(num, den))))
+       ELSE MaxI(vs, ve)
+\* the statement: never above the true peak, at least the first- and last-tick rates, short by at most |jerk|
+PeakBracket(m) == m <= peak /\ rate1 <= m /\ AbsI(rate) <= m /\ peak - m <= AbsI(cmd.j)
+MaxRateRefinesBracket == (Small /\ tick >= 1) => PeakBracket(MaxRateImpl(tick))
 =============================================================================
